@@ -53,14 +53,17 @@ TAtt == /\ IsEvent("att")
 
 (* what the host of the current attempt received: EVERY attempt, first or retried, whichever host, carries exactly
    Sem(actions, original request): the actions are applied once, relative to the original request *)
+RECURSIVE HdrTimes(_), PathTimes(_)
+HdrTimes(k)  == IF k = 0 THEN act.hin ELSE RA!SemHdr(act.lv, HdrTimes(k - 1))
+PathTimes(k) == IF k = 0 THEN act.path ELSE RA!SemRewrite(1, act.pr, act.rr, PathTimes(k - 1))
 Which == IF att <= 1 THEN "attempt-1:" ELSE "retried-attempt:"
 TRcv == /\ IsEvent("rcv")
-        /\ LET wantH  == RA!SemHdr(act.lv, act.hin)
-               againH == RA!SemHdr(act.lv, wantH)
-               wantP  == RA!SemRewrite(1, act.pr, act.rr, act.path)
-               againP == RA!SemRewrite(1, act.pr, act.rr, wantP)
-           IN /\ Expect(SameHdr(Ev.hdr, wantH), Which \o (IF SameHdr(Ev.hdr, againH) THEN "request-headers-applied-again" ELSE "request-headers"))
-              /\ Expect(Ev.path = wantP, Which \o (IF Ev.path = againP THEN "path-rewritten-again" ELSE "path-rewrite"))
+        /\ LET wantH  == HdrTimes(1)
+               wantP  == PathTimes(1)
+               againH == \E k \in 2..7 : SameHdr(Ev.hdr, HdrTimes(k))       \* as if the actions had been applied k times
+               againP == \E k \in 2..7 : Ev.path = PathTimes(k)
+           IN /\ Expect(SameHdr(Ev.hdr, wantH), Which \o (IF againH THEN "request-headers-applied-again" ELSE "request-headers"))
+              /\ Expect(Ev.path = wantP, Which \o (IF againP THEN "path-rewritten-again" ELSE "path-rewrite"))
               /\ Expect(Ev.orig = (IF wantP # act.path THEN act.path ELSE <<>>), Which \o "original-path-header")
         /\ UNCHANGED <<vars, nh, cg, ct, attAt, firstAt, act>>
 
